@@ -48,6 +48,9 @@ def scenarios(uni, tier):
     add("delete vs modify", t2(2, 0), z, True, t2(1, 0), t2(1, 0))
     add("two paths: propagate + delete", t2(2, 1), t2(1, 0), True, t2(1, 1), t2(1, 1), second_gen=True)
     add("two conflicts at once", t2(1, 2), t2(2, 1), False, z, z)
+    # a stale, LONGER file at the archive's staging name (left by a run killed inside an earlier save)
+    add("propagate + delete over a stale archive staging file", t2(2, 1), t2(1, 0), True, t2(1, 1), t2(1, 1), second_gen=True, stale_arch_tmp=True)
+    add("delete A->B over a stale archive staging file", z, t2(1, 0), True, t2(1, 0), t2(1, 0), stale_arch_tmp=True)
     if tier == "thorough":
         add("converge only", t2(1, 1), t2(1, 1), True, t2(2, 0), t2(2, 0))
         add("conflict with the copy name taken", t2(1, 0, {(1, (1, 0)): 2}), t2(2, 0, {(1, (1, 0)): 2}), True, t2(0, 0, {(1, (1, 0)): 2}), t2(0, 0, {(1, (1, 0)): 2}))
